@@ -219,6 +219,14 @@ def gen(rng, tier, mult=1):
             rq["body"] = None
             yield H.exchange_case([{"accept": "yes", "result": dict(H.SMALL_RESULT)}], [[rq], [H.liveness_request()]],
                                   meta={"kind": f"gate/{method}"})
+    # 2a. handlers that raise exceptions of other classes (the handler's own I/O trouble looks like a connection error)
+    for exc in ("OSError", "ConnectionRefusedError", "BrokenPipeError", "ConnectionResetError", "TimeoutError", "KeyError",
+                "UnicodeDecodeError", "FileNotFoundError", "EOFError", "LookupError"):
+        for method in ("GET", "POST"):
+            i += 1
+            hs = [{"accept": "yes", "result": {"kind": "raised", "exc": exc}}]
+            yield H.exchange_case(hs, [[H.gen_request(rng, method=method)]] + followups(rng, i),
+                                  meta={"kind": f"raise-handle-{exc}/{method}"})
     # 2b. a handler that answers a request with a body WITHOUT reading that body, the response carrying a Content-Length:
     #     the unread bytes (request lines, blank lines, binary) must not be taken for a further request
     for method in ("POST", "PUT"):
